@@ -84,6 +84,8 @@ func init() {
 				mm = sys.master(i, st)
 			case "codec":
 				mm = sys.codec(i, st)
+			case "usekey":
+				mm = sys.usekey(i, st)
 			case "sign":
 				mm = sys.sign(i, st)
 			case "verify":
@@ -258,6 +260,77 @@ func (sys *sm9sys) codec(i int, st Step) *Mismatch {
 		return mm
 	}
 	return sm9Bool(i, eq, true, "parsed key Equal to the original")
+}
+
+// usekey: a user key parsed from one of its encodings is used. res works: the operation must succeed;
+// res nopanic: the encoding carries no master public key, so signing / starting a key exchange may be
+// refused with an error - a panic (caught by RunTrace) is a failure. What succeeds must be right.
+func (sys *sm9sys) usekey(i int, st Step) *Mismatch {
+	kind, form, in, uid, hid := st.Str("kind"), st.Str("form"), st.Hex("in"), st.Hex("uid"), byte(st.Int("hid"))
+	raw := form == "raw" || form == "craw"
+	must := st.Str("res") == "works"
+	msg := []byte("a message for the key that came back")
+	if kind == "supriv" {
+		var k *sm9.SignPrivateKey
+		var err error
+		if raw {
+			k, err = sm9.UnmarshalSignPrivateKeyRaw(in)
+		} else {
+			k, err = sm9.UnmarshalSignPrivateKeyASN1(in)
+		}
+		if mm := sm9NoErr(i, err, "Unmarshal supriv/"+form); mm != nil {
+			return mm
+		}
+		sig, err := k.Sign(sm9ScriptOf(st, "script"), msg, crypto.Hash(0)) // panics today for keys without master public key: see proposed_fixes/C10-sm9-parsed-userkey-no-master.diff
+		if err != nil {
+			if must {
+				return sm9NoErr(i, err, "Sign with the parsed key")
+			}
+			return nil
+		}
+		return sm9Bool(i, sys.sm.PublicKey().Verify(uid, hid, msg, sig), true, "signature of the parsed key accepted")
+	}
+	var k *sm9.EncryptPrivateKey
+	var err error
+	if raw {
+		k, err = sm9.UnmarshalEncryptPrivateKeyRaw(in)
+	} else {
+		k, err = sm9.UnmarshalEncryptPrivateKeyASN1(in)
+	}
+	if mm := sm9NoErr(i, err, "Unmarshal eupriv/"+form); mm != nil {
+		return mm
+	}
+	key, c, err := sm9.WrapKey(sm9ScriptOf(st, "script"), sys.em.PublicKey(), uid, hid, 32)
+	if mm := sm9NoErr(i, err, "WrapKey"); mm != nil {
+		return mm
+	}
+	got, err := sm9.UnwrapKey(k, uid, c, 32)
+	if mm := sm9NoErr(i, err, "UnwrapKey with the parsed key"); mm != nil {
+		return mm
+	}
+	if mm := Diff(i, got, key); mm != nil {
+		mm.Note = "key unwrapped with the parsed decryption key"
+		return mm
+	}
+	ct, err := sm9.EncryptASN1(sm9ScriptOf(st, "script"), sys.em.PublicKey(), uid, hid, msg, nil)
+	if mm := sm9NoErr(i, err, "Encrypt"); mm != nil {
+		return mm
+	}
+	pt, err := sm9.DecryptASN1(k, uid, ct)
+	if mm := sm9NoErr(i, err, "Decrypt with the parsed key"); mm != nil {
+		return mm
+	}
+	if mm := Diff(i, pt, msg); mm != nil {
+		mm.Note = "plaintext decrypted with the parsed decryption key"
+		return mm
+	}
+	kx := k.NewKeyExchange(uid, []byte("peer"), 16, true)
+	defer kx.Destroy()
+	_, err = kx.InitKeyExchange(sm9ScriptOf(st, "script"), hid) // needs the master public key
+	if must {
+		return sm9NoErr(i, err, "InitKeyExchange with the parsed key")
+	}
+	return nil
 }
 
 func (sys *sm9sys) sign(i int, st Step) *Mismatch {
